@@ -226,6 +226,8 @@ def struct_job(job):
     foreign = cmds + commands_for({"rtu": "tcp", "tcp": "aa55", "aa55": "rtu"}[framing], idx) + commands_for(framing, idx + 1)
     for cc in cmds:
         structured(acc, cc, [o for o in foreign if o is not cc])
+        for x in foreign_shapes(cc):
+            judge(acc, cc, x, "foreign-shape")
     cc = cmds[0]
     acc.sample({"command": cc.desc(), "valid_frame": cc.F, "mutations": "all truncations, bit flips, header substitutions"})
     return acc
@@ -302,10 +304,13 @@ def e2e_case(acc: Acc, case):
     x = case["x"]
     cc = CmdCtx(framing, kind, case["addr"], case["reg"], case["arg"], case.get("payload", b""))
     if x != cc.F and len(x) >= MIN_HEADER[framing]:
-        acc.nontrivial("e2e", framing, repr(kind), case["addr"], case["reg"], repr(case["arg"]), x, case.get("keep"))
+        acc.nontrivial("e2e", framing, repr(kind), case["addr"], case["reg"], repr(case["arg"]), x, case.get("keep"), case.get("split"))
     transport = {"rtu": "udp", "tcp": "tcp", "aa55": "aa55"}[framing]
     from vlib.vloop import ScriptedPeer, VLoop, World
     script = [["raw", 2, x]] if x else [["drop"]]
+    if x and case.get("split"):      # the same bytes in two pieces (fragment + exact remainder of x)
+        sp = max(1, min(len(x) - 1, case["split"]))
+        script = [["multi", [[2, x[:sp]], [4, x[sp:]]]]] if len(x) > 1 else script
     peer = ScriptedPeer(netcase.make_responder(transport), netcase.to_actions(script, 1.0), default=("drop",))
     world = World(peer)
     loop = VLoop(world)
@@ -328,11 +333,35 @@ def e2e_case(acc: Acc, case):
     return []
 
 
+def foreign_shapes(cc):
+    """Well-formed answers to ANOTHER kind of request whose length fields happen to fit the pending command (a late answer to an
+    earlier read while a write of value v is pending, a write echo while a read of v registers is pending, ...)."""
+    out = []
+    if cc.framing not in ("rtu", "tcp"):
+        return out
+    mk = lambda kind, reg, arg, payload=b"": conforming(cc.framing, kind, cc.addr, reg, arg, payload)[0]
+    if cc.kind in ("write", "write_multi"):
+        v = (cc.arg & 0xFFFF) if cc.kind == "write" else len(cc.arg) // 2
+        if 0 < v <= 125:
+            out.append(mk("read", cc.reg, v, bytes((7 * i + 1) & 0xFF for i in range(2 * v))))
+        out.append(mk("write_multi", cc.reg, bytes(2 * max(1, v & 0x7F))) if cc.kind == "write" else mk("write", cc.reg, len(cc.arg) // 2))
+    else:
+        out.append(mk("write", cc.reg, cc.arg))
+        out.append(mk("write_multi", cc.reg, bytes(2 * cc.arg)))
+    return out
+
+
 def e2e_job(job):
     framing, idx = job
     acc = Acc()
     for cc in commands_for(framing, idx):
         F = cc.F
+        for x in foreign_shapes(cc) + [F]:
+            for sp in sorted({MIN_HEADER[framing], MIN_HEADER[framing] + 1, len(x) // 2, len(x) - 2, len(x) - 1} & set(range(1, len(x)))):
+                for keep in (False, True):
+                    case = dict(cc.desc(), x=x, keep=keep, split=sp)
+                    for key, msg, c in e2e_case(acc, case):
+                        acc.fail(key, msg, c)
         xs = [F, F[:-1], F[:len(F) // 2], F + b"\x00", F[1:], b"", F[:3]]
         b = bytearray(F)
         for i in range(0, len(F), max(1, len(F) // 24)):
